@@ -165,7 +165,7 @@ def read_via_file(stog, info, d, cfg=None):
         shutil.rmtree(tmp, ignore_errors=True)
 
 
-def read_all_route(pystog, cfg, datasets):
+def read_all_route(pystog, cfg, datasets, bad_at=None):
     """the same datasets handed over as the instance's file list and read in one go by read_all_data (text files, raw abscissae in
     full precision, default column order; the instance's settings forwarded as keywords the way a driver script does); returns the two
     storage arrays"""
@@ -198,6 +198,12 @@ def read_all_route(pystog, cfg, datasets):
                     fh.write(" ".join(repr(float(v)) for v in row) + "\n")
             info["Filename"] = name
             entries.append(info)
+        if bad_at is not None:
+            # a file with a single column among them: read_dataset raises RuntimeError there; what was read before stays stored
+            name = os.path.join(tmp, "broken.dat")
+            with open(name, "w") as fh:
+                fh.write("3\n# one column only\n0.1\n0.2\n0.3\n")
+            entries.insert(bad_at, {"Filename": name, "ReciprocalFunction": "S(Q)"})
         kw = stog_kwargs(cfg)
         if len(datasets) % 2:
             stog = pystog.StoG(**dict(kw, Files=entries))
@@ -207,8 +213,17 @@ def read_all_route(pystog, cfg, datasets):
             for e in entries[:-1]:
                 stog.append_file(e)
             stog.extend_file_list(entries[-1:])
-        stog.read_all_data(**rkw)
-        return snap(stog)
+        if bad_at is None:
+            stog.read_all_data(**rkw)
+            return snap(stog)
+        try:
+            stog.read_all_data(**rkw)
+            outcome = "returned"
+        except RuntimeError:
+            outcome = "RuntimeError"
+        except Exception as ex:
+            outcome = type(ex).__name__
+        return dict(snap(stog), outcome=outcome)
     finally:
         shutil.rmtree(tmp, ignore_errors=True)
 
